@@ -346,6 +346,7 @@ class World(object):
         self.objs = {}
         self.results = {}      # step id -> raw result (only for steps that returned)
         self.gens = {}         # step id -> live generator
+        self.held = {}         # (obj index, method name) -> bound method fetched once (plan["held_methods"])
 
 
 def _getpath(o, path):
@@ -386,7 +387,16 @@ def _do(step, W):
         name = step.get("name", "__call__")
         args = [dec_lit(a, W) for a in step.get("args", [])]
         kw = {n: dec_lit(v, W) for n, v in step.get("kw", {}).items()}
-        f = o if name == "__call__" else _getpath(o, name)
+        if name == "__call__":
+            f = o
+        elif W.plan.get("held_methods") and "." not in name:
+            # calling style: the caller fetched the bound method once (d = h.duplex; map(d, msgs))
+            key = (step["obj"], name)
+            if key not in W.held:
+                W.held[key] = getattr(o, name)
+            f = W.held[key]
+        else:
+            f = _getpath(o, name)
         r = f(*args, **kw)
         if step.get("post") == "list":
             r = list(r)
@@ -447,6 +457,8 @@ def _do(step, W):
         return None
     if k == "make":
         W.objs[step["slot"]] = build(W.plan["objects"][step["slot"]], W)
+        for key in [q for q in W.held if q[0] == step["slot"]]:
+            del W.held[key]
         return None
     raise ValueError("unknown step kind %r" % k)
 
